@@ -158,6 +158,7 @@ def _nth(L: int, i: int) -> str:
 
 
 # every short string is also tried as the inside of a complete construct ("start a comment or declaration")
+SPECIAL_PARENTS = ["pre", "textarea", "listing", "title", "option", "template", "a", "svg", "xmp", "plaintext", "noscript", "iframe"]
 WRAPS = [("<!--", "-->"), ("<!", ">"), ("<", ">"), ("&", ";"), ("<![CDATA[", "]]>")]
 
 
@@ -172,6 +173,11 @@ def body_short(case, note):
         check(o2.startswith("<div>") and o2.endswith("</div>") and fast_match_all(o2[5:-6], s), "single text child not inert", s, o2)
         o4 = h.Tag("p", s, "y").get_html_string()
         check(o4.startswith("<p>\n  ") and o4.endswith("y\n</p>") and fast_match_all(o4[6:-6], s), "text child with a sibling not inert", s, o4)
+        for nm in [case["parent"]] if case.get("parent") else SPECIAL_PARENTS:
+            for extra, post in (((), "</" + nm + ">"), (("y",), "y</" + nm + ">")):
+                o5 = h.Tag(nm, s, *extra, _add_ws=False).get_html_string()
+                pre5 = "<" + nm + ">"
+                check(o5.startswith(pre5) and o5.endswith(post) and fast_match_all(o5[len(pre5) : len(o5) - len(post)], s), f"text child of <{nm}> not inert", s, o5)
         note(True)
         return
     esc = h.html_escape
@@ -191,6 +197,13 @@ def body_short(case, note):
         if not (o2.startswith("<div>") and o2.endswith("</div>") and o2[5:-6] == o):
             if not (o2.startswith("<div>") and o2.endswith("</div>") and fast_match_all(o2[5:-6], s)):
                 raise Violation(f"Tag('div', {s!r}) renders {o2!r}", case={"s": s})
+        # the same string inside elements whose content parsers / pretty-printers treat specially
+        nm = SPECIAL_PARENTS[i % len(SPECIAL_PARENTS)]
+        for t5, pre5, post5 in ((Tag(nm, s, _add_ws=False), "<" + nm + ">", "</" + nm + ">"), (Tag(nm, s, "y", _add_ws=False), "<" + nm + ">", "y</" + nm + ">")):
+            o5 = t5.get_html_string()
+            n += 1
+            if not (o5.startswith(pre5) and o5.endswith(post5) and fast_match_all(o5[len(pre5) : len(o5) - len(post5)], s)):
+                raise Violation(f"Tag({nm!r}, {s!r}{', y' if post5.startswith('y') else ''}) renders {o5!r}", case={"s": s, "parent": nm})
         if case["len"] <= 3 or i % 7 == 0:
             for a, b in WRAPS:
                 w = a + s + b
